@@ -34,7 +34,13 @@ from sigma.correlations import (
     SigmaExtendedCorrelationCondition,
     SigmaRuleReference,
 )
-from sigma.exceptions import SigmaBackendError, SigmaConversionError, SigmaError, SigmaValueError
+from sigma.exceptions import (
+    SigmaBackendError,
+    SigmaConversionError,
+    SigmaError,
+    SigmaFeatureNotSupportedByBackendError,
+    SigmaValueError,
+)
 from sigma.processing.pipeline import ProcessingPipeline
 from sigma.rule import SigmaRule
 from sigma.rule.detection import SigmaDetection, SigmaDetectionItem
@@ -243,6 +249,14 @@ class Backend(ABC):
                 return []
             else:
                 raise e
+        except NotImplementedError as e:
+            if self.collect_errors:
+                self.errors.append(
+                    (rule, SigmaFeatureNotSupportedByBackendError(str(e), source=rule.source))
+                )
+                return []
+            else:
+                raise
 
     def convert_rule(
         self,
@@ -338,6 +352,13 @@ class Backend(ABC):
         except (
             Exception
         ) as e:  # enrich all other exceptions with Sigma-specific context information
+            if self.collect_errors and isinstance(e, NotImplementedError):
+                # A feature the backend doesn't support is a property of this rule: it is recorded
+                # like every other conversion error and the remaining rules are still converted.
+                self.errors.append(
+                    (rule, SigmaFeatureNotSupportedByBackendError(str(e), source=rule.source))
+                )
+                return []
             msg = f" (while {error_state} rule {str(rule.source)})"
             if len(e.args) > 1:
                 e.args = (e.args[0] + msg,) + e.args[1:]
